@@ -199,10 +199,16 @@ ROOTS = ('this', 'param:', 'local:', 'capture:', 'global:', 'call(', 'fn:')
 _ROOT_RE = re.compile(r'\bthis\b|(?:param|local|capture):\w+(?:#\d+)?')
 
 
+_DEREF_DOT = re.compile(r'\*\((this|(?:param|local|capture):\w+(?:#\d+)?)\)\.')
+
+
 def subst_path(p, env):
     if p is None or not env:
         return p
-    return _ROOT_RE.sub(lambda m: env.get(m.group(0), m.group(0)), p)
+    r = _ROOT_RE.sub(lambda m: env.get(m.group(0), m.group(0)), p)
+    if '*(' in r:
+        r = _DEREF_DOT.sub(r'\1->', r)        # a reference parameter bound to *p: (*p).x is p->x
+    return r
 
 
 def bool_locals(f):
@@ -323,6 +329,7 @@ class Tracer:
         self.exc_edges = exc_edges      # predicate(ev) -> True when the event may throw into its try handler
         self.truncated = False
         self.count = 0
+        self.closures_on_stack = False
 
     def traces(self, f, d=0, env=None, stack=()):
         env = dict(env or {})
@@ -430,6 +437,12 @@ class Tracer:
                             val = not val
                         cpath = cond.get('path'); cev = cond.get('ev')
                         # a branch on a bool local that is defined once is a branch on its initialiser (bool ok = cas(...); if (ok) ...)
+                        m2_ = re.fullmatch(r'\(local:(\w+) (==|!=) (false|true|0|1)\)', cpath or '')
+                        if m2_ and m2_.group(1) in bl:
+                            # if (ok == false) / if (ok != true): the same test with the polarity spelled out
+                            cpath = 'local:' + m2_.group(1)
+                            if (m2_.group(2) == '==') == (m2_.group(3) in ('false', '0')):
+                                val = not val
                         for _ in range(3):
                             m_ = re.fullmatch(r'local:(\w+)', cpath or '')
                             if not m_ or m_.group(1) not in bl:
@@ -488,8 +501,13 @@ class Tracer:
         if any(fr[0] == key for fr in stack):
             return None
         callee = self.db.resolve(caller, key, ee.get('callee_inst'))
-        if callee is None or not self.inline_filter(caller, ee, callee):
+        if callee is None:
             return None
+        if not self.inline_filter(caller, ee, callee):
+            # a closure handed down to an expanded helper and called there (resolve_claimed([&](future *f) { f->set(...); })) is code of the
+            # function that defined it: expand it when that function is on the expansion stack and helpers are expanded at all
+            if not (self.closures_on_stack and callee.get('lambda') and callee.get('parent_key') and d > 0 and any(fr[0] == callee['parent_key'] for fr in stack)):
+                return None
         if callee.get('lambda'):
             env = self.lambda_env(callee, stack, ee.get('args') or [])
         else:
